@@ -1,9 +1,10 @@
 #!/bin/sh
-# selftest/confirm_seeded.sh <ID> <k>: confirm a sub-agent's seeded change in a scratch worktree and file it under /verif/seeded/
-ID=$1; K=$2
-SRCDIR=/tmp/seeded_out/$ID/$K
+# selftest/confirm_seeded.sh <srcdir> <ID> <k> <kout>: confirm a sub-agent's seeded change (<srcdir>/<ID>/<k>/{patch.diff,demo.py,notes.txt})
+# in a scratch worktree of /repo HEAD and file it under /verif/seeded/<ID>-<kout>/
+SRC=$1; ID=$2; K=$3; KOUT=${4:-$3}
+SRCDIR=$SRC/$ID/$K
 [ -f $SRCDIR/patch.diff ] || { echo "$ID/$K: no patch"; exit 0; }
-WT=/tmp/confirm_wt_${ID}_$K
+WT=/tmp/confirm_wt_${ID}_$KOUT
 git -C /repo worktree add -q --detach $WT HEAD || exit 1
 RES="applies=no"
 if git -C $WT apply $SRCDIR/patch.diff 2>/dev/null; then
@@ -14,14 +15,19 @@ if git -C $WT apply $SRCDIR/patch.diff 2>/dev/null; then
   RES="$RES tests=[$T] demo_with_patch_exit=$RW demo_without_patch_exit=$RWO"
   case "$T" in *"76 passed"*) TP=1;; *) TP=0;; esac
   if [ $TP = 1 ] && [ $RW = 1 ] && [ $RWO = 0 ]; then
-    OUT=/verif/seeded/$ID-$K
+    OUT=/verif/seeded/$ID-$KOUT
     mkdir -p $OUT && cp $SRCDIR/patch.diff $SRCDIR/demo.py $OUT/ && cp $SRCDIR/notes.txt $OUT/notes.txt 2>/dev/null
     tail -5 $WT/demo_with.txt > $OUT/demo_output_with_patch.txt
-    python3 - "$ID" "$K" "$T" <<'PY'
-import json,sys
+    python3 - "$ID" "$KOUT" "$T" <<'PY'
+import json,sys,re,os
 ID,K,T=sys.argv[1:4]
-notes=open('/verif/seeded/%s-%s/notes.txt'%(ID,K)).read() if True else ''
-json.dump({"property":ID,"breaks":"see notes.txt (written by the sub-agent that produced the change)","needs_to_manifest":"see notes.txt","confirmed_by":"selftest/confirm_seeded.sh in a scratch worktree of /repo HEAD","ran":{"git apply":"ok","test suite with patch":T,"demo.py with patch (AMPY_SRC=worktree)":"exit 1","demo.py without patch (AMPY_SRC=/repo/src)":"exit 0"},"detected_by":None},open('/verif/seeded/%s-%s/meta.json'%(ID,K),'w'),indent=1)
+d='/verif/seeded/%s-%s'%(ID,K)
+notes=open(d+'/notes.txt').read() if os.path.exists(d+'/notes.txt') else ''
+json.dump({"property":ID,"breaks":"property %s; see notes.txt (written by the sub-agent that produced the change)"%ID,
+ "needs_to_manifest":re.sub(r'\s+',' ',notes)[:600],
+ "confirmed_by":"selftest/confirm_seeded.sh in a scratch worktree of /repo HEAD",
+ "ran":{"git apply":"ok","test suite with patch":T,"demo.py with patch (AMPY_SRC=worktree)":"exit 1","demo.py without patch (AMPY_SRC=/repo/src)":"exit 0"},
+ "detected_by":None},open(d+'/meta.json','w'),indent=1)
 PY
     RES="$RES KEPT"
   else
